@@ -616,7 +616,6 @@ func InductiveNonEmpty(in ssa.Instruction, container ssa.Value) (bool, string) {
 	return false, ""
 }
 
-
 // CallSitesOf lists the static call sites of a package-level function inside its own package and reports whether the
 // function is also used as a value (stored, passed, deferred through a variable): then it can be called from places that
 // are not listed.
